@@ -3,6 +3,7 @@ package astits
 // Environment stubs written in ordinary Go; the engine executes them symbolically like any other code.
 
 import (
+	"github.com/asticode/go-astikit"
 	"errors"
 	"io"
 	"time"
@@ -124,3 +125,7 @@ func vBytesEq(a, b []byte) bool {
 	}
 	return eq
 }
+
+func astikitIter(b []byte) *astikit.BytesIterator { return astikit.NewBytesIterator(b) }
+
+func errorsIs(err, target error) bool { return errors.Is(err, target) }
